@@ -87,7 +87,7 @@ def cvProcOf (cs : List Ctl) : CvProc :=
     XF := fun l j i => ctlVal (cs.getD j default) (16 * l + tF i)
     XC := fun l j i => ctlVal (cs.getD j default) (16 * l - 8 + tC i)
     price := fun j => (cs.getD j default).price
-    coef := coef1 }
+    coef := Stats.kernelOf cs.length }
 
 /-- one read point with control variates: raw rows, control rows, adjusted rows, and the results read from the adjusted arrays -/
 def showReadCv (q : Rat × Rat × Rat) (k : Nat) (s : CvSt) : String :=
@@ -137,7 +137,7 @@ def step (t : List String) : String :=
           (if hist == "-" then some [] else (hist.splitOn ";").mapM parseOracle?), (ctls.splitOn ";").mapM parseCtl?,
           parseRat? qa, parseRat? qb, parseRat? qg with
     | some l0, some n0, some lmax, some os, some cs, some qa, some qb, some qg =>
-      if cs.length != 1 then "bad-op" else
+      if cs.length != 1 && cs.length != 2 then "bad-op" else
       let c := cvProcOf cs
       match cvLoopHead (initCv l0 n0 lmax 0) with
       | .cont s => " # ".intercalate (traceCv (qa, qb, qg) c os s [])
@@ -146,7 +146,7 @@ def step (t : List String) : String :=
   | ["fixedcv", lmax, mc, ctls] =>
     match parseNat? lmax, parseNat? mc, (ctls.splitOn ";").mapM parseCtl? with
     | some lmax, some mc, some cs =>
-      if cs.length != 1 then "bad-op" else showReadCv (2, 4, 2) cs.length (fixedRunCv procV (cvProcOf cs) lmax mc)
+      if cs.length != 1 && cs.length != 2 then "bad-op" else showReadCv (2, 4, 2) cs.length (fixedRunCv procV (cvProcOf cs) lmax mc)
     | _, _, _ => "bad-op"
   | ["feeds", l0, n0, lmax, qa, qb, qg, hist] =>
     match parseNat? l0, parseNat? n0, parseNat? lmax, parseRat? qa, parseRat? qb, parseRat? qg,
